@@ -22,6 +22,7 @@ from __future__ import annotations
 import ast
 import copy
 import importlib.util
+import json
 from pathlib import Path
 
 from ..absint import Interp, Raised, Record, Unsupported, _Return
@@ -154,6 +155,21 @@ def _httpx_newlines() -> tuple[str, str]:
     return SPLITLINES, "httpx source not available; documented behaviour (str.splitlines) assumed"
 
 
+def _helper_newlines(helper: ast.AST) -> tuple[str, str]:
+    """Line-boundary alphabet of a line-splitting helper: the separator constants it splits on."""
+    if any(isinstance(a, ast.Attribute) and a.attr == "splitlines" for a in ast.walk(helper)):
+        return SPLITLINES, f"{helper.name} uses str.splitlines"
+    seps: set[str] = set()
+    for n in ast.walk(helper):
+        if isinstance(n, ast.Call) and isinstance(n.func, ast.Attribute) and n.func.attr in ("split", "rsplit", "partition", "rpartition", "find", "index") and n.args and isinstance(n.args[0], ast.Constant):
+            seps.add(n.args[0].value.decode("latin-1") if isinstance(n.args[0].value, bytes) else str(n.args[0].value))
+        if isinstance(n, ast.Compare) and len(n.ops) == 1 and isinstance(n.ops[0], (ast.In, ast.NotIn)) and isinstance(n.left, ast.Constant) and isinstance(n.left.value, (str, bytes)):
+            seps.add(n.left.value.decode("latin-1") if isinstance(n.left.value, bytes) else n.left.value)
+    if not seps or any(len(x) > 2 for x in seps):
+        raise AnchorError(f"C17.R1: cannot read the separators of line helper `{helper.name}` (found {sorted(seps)})")
+    return "".join(sorted(set("".join(seps)))), f"{helper.name} splits on {sorted(seps)!r} (assumed: it yields only completed lines)"
+
+
 # ============================================================================ binding: client
 
 
@@ -190,13 +206,22 @@ def _bind_client(repo) -> _Client:
             c.after_expr = v
     if c.after_expr is None:
         raise AnchorError("C17.R2: the stream request passes no `after_sequence` parameter")
-    # line loop
-    loops = [n for n in ast.walk(sw) if isinstance(n, (ast.AsyncFor, ast.For)) and isinstance(n.iter, ast.Call) and last(call_name(n.iter)) in ("aiter_lines", "iter_lines")]
+    # line loop: over httpx's aiter_lines(), or over a line-splitting helper of the client module (one call deep)
+    loops = []
+    for n in ast.walk(sw):
+        if isinstance(n, (ast.AsyncFor, ast.For)) and isinstance(n.iter, ast.Call):
+            ln = last(call_name(n.iter))
+            if ln in ("aiter_lines", "iter_lines"):
+                loops.append((n, ln, None))
+            else:
+                helper = next((f for q, f in m.functions.items() if q.rsplit(".", 1)[-1] == ln and any(isinstance(x, ast.Call) and last(call_name(x)) in ("aiter_text", "aiter_bytes", "aiter_raw", "iter_text") for x in ast.walk(f))), None)
+                if helper is not None:
+                    loops.append((n, ln, helper))
     if len(loops) != 1:
         other = [ast.unparse(n.iter)[:50] for n in ast.walk(sw) if isinstance(n, (ast.AsyncFor, ast.For))]
-        raise AnchorError(f"C17.R1: expected one loop over <response>.aiter_lines() in the reader, found {len(loops)} (loops: {other}); other line sources are not modelled")
-    c.loop = loop = loops[0]
-    c.line_source = last(call_name(loop.iter))
+        raise AnchorError(f"C17.R1: expected one loop over <response>.aiter_lines() or a line-splitting helper in the reader, found {len(loops)} (loops: {other})")
+    c.loop, c.line_source, c.line_helper = loops[0]
+    loop = c.loop
     if not isinstance(loop.target, ast.Name):
         raise AnchorError("C17.R1: line loop target is not a name")
     c.line = loop.target.id
@@ -322,13 +347,18 @@ class _Sim(Interp):
     def e_Call(self, e, env):
         name = call_name(e) or ""
         ln = last(name)
-        if ln in ("aiter_lines", "iter_lines"):
+        if ln in ("aiter_lines", "iter_lines") or ln == self.c.line_source:
             return self.lines_fn()
         if ln in ("put", "put_nowait") and dotted(getattr(e.func, "value", None)) == self.c.queue:
             self.deliver(self.eval(e.args[0], env))
             return None
         if ln in ("model_validate_json", "model_validate", "loads"):
-            return ("EVENT", self.eval(e.args[0], env))
+            txt = self.eval(e.args[0], env)
+            try:
+                json.loads(txt)
+            except (TypeError, ValueError) as x:
+                raise Raised("ValidationError", f"invalid JSON {str(txt)[:40]!r}: {x}")
+            return ("EVENT", txt)
         if ln in ("_raise_for_status_with_body", "raise_for_status"):
             return None
         if name in self.fields:
@@ -444,14 +474,11 @@ def run(chk) -> None:
     V = next(iter(cur_names))
     seq_kw = kwarg(c.puts[0].args[0], "sequence")
     cursor_assigns_in_loop = [a for a in ast.walk(c.loop) if isinstance(a, (ast.Assign, ast.AnnAssign)) and any(isinstance(t, ast.Name) and t.id == V for t in (a.targets if isinstance(a, ast.Assign) else [a.target]))]
-    # the variable holding the parsed id: what the event's sequence is computed from
-    seq_src = set()
-    for a in cursor_assigns_in_loop:
-        seq_src |= _name_set(a.value) - {"int", "str"}
-    if isinstance(seq_kw, ast.Name) and seq_kw.id != V:
-        seq_src |= {seq_kw.id}
-    elif not isinstance(seq_kw, ast.Name):
-        seq_src |= _name_set(seq_kw) - {"int", "str", V}
+    # the variable holding the parsed id: what the queued item's sequence is computed from (one assignment deep)
+    seq_src = _name_set(seq_kw) - {"int", "str"}
+    for a in ast.walk(c.loop):
+        if isinstance(a, (ast.Assign, ast.AnnAssign)) and a.value is not None and any(isinstance(t, ast.Name) and t.id in seq_src for t in (a.targets if isinstance(a, ast.Assign) else [a.target])):
+            seq_src = seq_src | (_name_set(a.value) - {"int", "str"})
     id_vars = set()
     for prefix, ifn, _b in c.prefix_tests:
         if prefix == data_prefix:
@@ -565,8 +592,10 @@ def run(chk) -> None:
             break
     if writer is None:
         raise AnchorError(f"C17.R1: payload producer `{ast.unparse(pay)[:70]}` is not a JSON writer this rule knows")
-    boundaries, how = _httpx_newlines()
-    clash = sorted(set(writer[1]) & set(boundaries))
+    boundaries, how = _httpx_newlines() if c.line_helper is None else _helper_newlines(c.line_helper)
+    chk.ob("C17.R1", f"the payload writer ({writer[0]}) emits the payload on one line (no indentation requested)", "\n" not in writer[1], m=sm, node=y, fn=fn, instance="payload-single-line",
+           reason="an indented JSON document spans several lines; the client parses the first `data:` line alone")
+    clash = sorted((set(writer[1]) - {"\n"}) & set(boundaries))
 
     # frame text from the template
     def frames_fn(evs, hb=True):
